@@ -49,7 +49,7 @@ def gen(ctx):
                         add(sym, ver, level, mask, [(ref.MODE['num'], b'1')], 'fields')
         for (ver, level) in cfgs:
             for mask in fr['mask']:
-                if r.chance(1, 3) or mask in (-2, -1, 0, fr['mask'][-3]):
+                if r.chance(1, 3) or mask in (-2, -1, 0) or mask == symgen.masks(sym)[-1] + 1:
                     add(sym, ver, level, mask, [(ref.MODE['num'], b'12')], 'mask')
         # modes
         for (ver, level) in [cfgs[0], cfgs[len(cfgs) // 2], cfgs[-1]]:
